@@ -479,7 +479,17 @@ package parser
 //@   loop 1 decreases 2 * (len(p.lexer.input) - p.lexer.pos) + ite(p.current.Type != TokenEOF, 1, 0)
 
 //@ pure toASTPosition
-//@ trusted isValidCommodityText
+// A bare word after a number is a commodity exactly when it is made of letters and digits (any script: unicode.IsLetter /
+// unicode.IsDigit) and contains a letter. ldFrom / lFrom read the runes of s from byte offset i on.
+//@ specdef ldFrom(s string, i int) bool := ite(i < 0 || i >= len(s), true, (unicodeIsLetter(rune(s, i)) || unicodeIsDigit(rune(s, i))) && ldFrom(s, step(s, i)))
+//@ specdef lFrom(s string, i int) bool := ite(i < 0 || i >= len(s), false, unicodeIsLetter(rune(s, i)) || lFrom(s, step(s, i)))
+//@ func isValidCommodityText
+//@   props C02 C06
+//@   effects none
+//@   ensures [C02:any_script] result == (len(value) > 0 && ldFrom(value, 0) && lFrom(value, 0))
+//@   loop 1 invariant 0 <= iterpos && iterpos <= len(value) && len(value) > 0 && bnd(value, iterpos)
+//@   loop 1 invariant ldFrom(value, 0) == ldFrom(value, iterpos)
+//@   loop 1 invariant lFrom(value, 0) == (hasLetter || lFrom(value, iterpos))
 
 // ---- C08: the ranges of the tags inside a comment ----
 // A tag's range lies on the comment's line, starts and ends at byte offsets inside the comment text (text starts one
